@@ -17,13 +17,13 @@ def spec(tier):
     hs = []
     cap = 180 if tier == "quick" else 1800
     for c in CHAINS_Q:
-        hs.append(Harness(c, timeout=cap, optional_covers=("something filtered out",) if c in NOFILTER else (),
+        hs.append(Harness(c, unwind=7, timeout=cap, optional_covers=("something filtered out",) if c in NOFILTER else (),
                           note="adapter chain %s over an iterator source, symbolic items/fault positions/driving mode" % c[10:]))
     for c in ("c15_chunky_f", "c15_chunky_m", "c15_chunky_fm"):
-        hs.append(Harness(c, timeout=cap, optional_covers=("something filtered out",) if c.endswith("_m") else (),
+        hs.append(Harness(c, unwind=7, timeout=cap, optional_covers=("something filtered out",) if c.endswith("_m") else (),
                           note="multi-item-per-step source (fault possibly mid-step) through one adapter"))
     for c in ("c15_into_iter_m", "c15_into_iter_fm"):
-        hs.append(Harness(c, timeout=max(cap, 600), optional_covers=("sink fault", "something filtered out") if c.endswith("_m") else ("sink fault",),
+        hs.append(Harness(c, unwind=7, timeout=max(cap, 600), optional_covers=("sink fault", "something filtered out") if c.endswith("_m") else ("sink fault",),
                           note="IntoIterator of map_items/filter_map_items over a multi-item-per-step source"))
     hs.append(Harness("c15_for_each_item", timeout=cap, optional_covers=("sink fault",), note="for_each_item/for_some_item (infallible sink)"))
     hs.append(Harness("c15_stream_error_plumbing", timeout=cap, note="StreamError map_source/map_sink/reverse/inner_into"))
@@ -36,7 +36,7 @@ def spec(tier):
                  "source::StreamError::{map_source,map_sink,reverse,inner_into,is_*}", "StreamResultExt",
                  "source::map::MapSourceIterator, source::filter_map::FilterMapSourceIterator (IntoIterator)"],
         bounds=["n <= 4 items, all u8 payloads", "source-fault index in 0..=4, sink-fault call index in 0..=5, both error payloads symbolic",
-                "all 3 chains of depth 1, all 9 of depth 2, 3 of depth 3; whole-stream and step-wise driving", "loop unwind 8 (unwinding assertions on)"],
+                "all 3 chains of depth 1, all 9 of depth 2, 3 of depth 3; whole-stream and step-wise driving", "loop unwind 7 (unwinding assertions on)"],
         outside=["real parsers as sources and real io::Error kinds", "sequences longer than 4"],
         assumptions=["harness iterator/sink stand for user-supplied Iterator/closure implementations"],
     )
